@@ -55,7 +55,7 @@ pub fn props() -> Vec<Prop> {
             id: "C19",
             run: c19,
             tools: None,
-            rule: "drop/slice/first/first_result/last_result/single/some/consume on every Vec<i32> of length 0..=8 with every index (pair) in -10..=10 (exhaustive) plus extreme indices, on Vec::into_iter, slice::iter and Path::components; StringExt and to_bool on every string up to length 4 (quick) / 6 (thorough) over a casing/multi-byte alphabet; Option::has; take_while_p with every threshold; defer on generated control-flow shapes (depth <= 3, <= 3 guards per frame, exit by fall-through / return / panic at every position) executed as real stack frames. distinct_nontrivial = distinct (helper, input class, outcome class) triples + distinct defer shapes.",
+            rule: "drop/slice/first/first_result/last_result/single/some/consume on every Vec<i32> of length 0..=8 with every index (pair) in -10..=10 (exhaustive) plus extreme indices, on Vec::into_iter, slice::iter, a filter adaptor and str::chars (size_hint over-estimates) and Path::components; StringExt and to_bool on every string up to length 4 (quick) / 6 (thorough) over a casing/multi-byte alphabet; Option::has; take_while_p with every threshold; defer on generated control-flow shapes (depth <= 3, <= 3 guards per frame, exit by fall-through / return / panic at every position) executed as real stack frames. distinct_nontrivial = distinct (helper, input class, outcome class) triples + distinct defer shapes.",
             assumptions: &["slice is only specified for left >= -len (statement)", "defer order inside one frame relies on Rust's reverse drop order of locals"],
             shards_quick: 4,
             shards_thorough: 8,
@@ -740,6 +740,60 @@ fn c19_seq(len: usize, rep: &mut Report, idx: &[isize]) {
                         rep.count("slice_left_below_minus_len_unspecified", 1);
                     }
                 },
+            }
+        }
+    }
+    // iterators whose size_hint over-estimates the length (filter adaptor): every second element is a filler
+    let padded: Vec<i32> = v.iter().flat_map(|x| vec![-1, *x]).chain(vec![-1]).collect();
+    for &l in idx {
+        for &r in idx {
+            rep.eval();
+            let exp = ref_slice(&v, l, r);
+            let sig = format!("law:slice-on-filter({},l={},r={})", lc, idx_class(l, len), idx_class(r, len));
+            match catch(|| padded.clone().into_iter().filter(|x| *x >= 0).slice(l, r).collect::<Vec<i32>>()) {
+                Err(m) => rep.violation(&format!("{}:no-panic→panic", sig), J::obj(vec![("len", J::Int(len as i64)), ("left", J::Int(l as i64)), ("right", J::Int(r as i64)), ("panic", J::s(m))])),
+                Ok(a) => {
+                    if let Some(exp) = exp {
+                        if a != exp {
+                            rep.violation(
+                                &format!("{}:inclusive-range→differs", sig),
+                                J::obj(vec![("iterator", J::s("vec.into_iter().filter(..) with an over-estimating size_hint")), ("len", J::Int(len as i64)), ("left", J::Int(l as i64)), ("right", J::Int(r as i64)), ("got", J::s(format!("{:?}", a))), ("expected", J::s(format!("{:?}", exp)))]),
+                            );
+                        }
+                        rep.key_str(&sig);
+                    }
+                },
+            }
+        }
+        rep.eval();
+        let exp = ref_drop(&v, l);
+        match catch(|| padded.clone().into_iter().filter(|x| *x >= 0).drop(l).collect::<Vec<i32>>()) {
+            Err(m) => rep.violation(&format!("law:drop-on-filter({},n={}):no-panic→panic", lc, idx_class(l, len)), J::s(m)),
+            Ok(a) => {
+                if a != exp {
+                    rep.violation(&format!("law:drop-on-filter({},n={}):plain-definition→differs", lc, idx_class(l, len)), J::obj(vec![("len", J::Int(len as i64)), ("n", J::Int(l as i64)), ("got", J::s(format!("{:?}", a)))]));
+                }
+            },
+        }
+    }
+    // chars() of a multi-byte string: the upper size hint counts bytes
+    {
+        let s: String = (0..len).map(|i| ['é', '€', 'a', '😀'][i % 4]).collect();
+        let cv: Vec<char> = s.chars().collect();
+        for &l in idx {
+            for &r in idx {
+                rep.eval();
+                let exp = ref_slice(&(0..len as i32).collect::<Vec<i32>>(), l, r).map(|ix| ix.iter().map(|i| cv[*i as usize]).collect::<String>());
+                match catch(|| s.chars().slice(l, r).collect::<String>()) {
+                    Err(m) => rep.violation(&format!("law:slice-on-chars({}):no-panic→panic", lc), J::obj(vec![("string", J::s(&s)), ("left", J::Int(l as i64)), ("right", J::Int(r as i64)), ("panic", J::s(m))])),
+                    Ok(a) => {
+                        if let Some(exp) = exp {
+                            if a != exp {
+                                rep.violation(&format!("law:slice-on-chars({}):inclusive-range→differs", lc), J::obj(vec![("string", J::s(&s)), ("left", J::Int(l as i64)), ("right", J::Int(r as i64)), ("got", J::s(&a)), ("expected", J::s(&exp))]));
+                            }
+                        }
+                    },
+                }
             }
         }
     }
